@@ -306,6 +306,29 @@ def rule_detrait(toks, state):
             g += 1
         forabs = it.start + fi
         newhdr = out[it.start:g] + out[forabs + 1:body_lo]
+        # lifetime parameters that only the dropped trait reference used (`impl<'a, ..> Index<&'a K> for T`) would be
+        # unconstrained on the inherent impl: remove them from the generics and elide them in the items
+        gen = out[h + 1:g]
+        selfty = out[forabs + 1:body_lo]
+        lifes = [t.text for t in gen if t.kind == "life"]
+        unused = [l for l in lifes if not any(t.kind == "life" and t.text == l for t in selfty)]
+        if unused:
+            def strip(toks):
+                res, k = [], 0
+                while k < len(toks):
+                    t = toks[k]
+                    if t.kind == "life" and t.text in unused:
+                        # also swallow a following comma inside generics
+                        if k + 1 < len(toks) and toks[k + 1].text == "," and res and res[-1].text in ("<", ","):
+                            k += 2
+                            continue
+                        k += 1
+                        continue
+                    res.append(t)
+                    k += 1
+                return res
+            newhdr = strip(newhdr)
+            newseg = strip(newseg)
         out[it.start:body_hi + 1] = newhdr + newseg
         fired += 1
     return out, fired
